@@ -89,6 +89,8 @@ def admit(item):
                         return "leaf %s pos %d element/charge" % (leaf["name"], pos)
                     if bool(data.get("aromatic", False)) != bool(atom["arom"]):
                         return "leaf %s pos %d aromatic" % (leaf["name"], pos)
+                    if float(data.get("weight", 1)) != float(atom.get("w") or 1):
+                        return "leaf %s pos %d weight %r" % (leaf["name"], pos, data.get("weight"))
                 got_d = list(data.get("bonding", []) or [])
                 want_d = leaf["descs"].get(str(pos), [])
                 if got_d != want_d:
